@@ -16,7 +16,7 @@ EXPLANATION = (
     "replaces the document; (R5) the rename handler cannot panic on a binder kind the resolver produces (shared with "
     "C18); (R6) DOC-SYNC - didOpen overwrites the tracked text, didClose forgets it, and every text read from disk is "
     "tracked so that its diagnostics are reset. Equality with a fresh server over all histories is not decided.")
-EXPLANATION += ' Further clauses: every entry of the diagnostics map is published (R2); Workspace.errors is emptied only by diagnostics() (R3); the changes of one notification are applied in the order sent, each bound an unmodified conversion against the current text (R4); (R7) CLAMP (shared C16.R3).'
+EXPLANATION += ' Further clauses: every entry of the diagnostics map is published (R2); Workspace.errors is emptied only by diagnostics() (R3); the changes of one notification are applied in the order sent, each bound an unmodified conversion against the current text (R4); (R7) CLAMP (shared C16.R3). R3 also requires every Ok return of diagnostics() to carry the map seeded from docs and that map to be only added to; (R8) HANDLER-NO-REJECT (shared C18.R7).'
 TECHNIQUE = "static analysis: MIR must-pass-through rules on the LSP event loop + units inference"
 
 MUTATORS = ('Workspace::open', 'Workspace::close', 'Workspace::change')
